@@ -207,7 +207,7 @@ class GeneInterval(AbstractFeatureIntervalCollection):
             qualifiers=self._export_qualifiers_to_list(),
             sequence_guid=self.sequence_guid,
             sequence_name=self.sequence_name,
-            feature_types=[self.gene_type.name],
+            feature_types=[self.gene_type.name] if self.gene_type else None,
             feature_name=self.gene_symbol,
             feature_id=self.gene_id,
             guid=self.guid,
